@@ -139,6 +139,7 @@ def drive_io(session, op, href, *args):
     """Scenario-level single I/O call on an async handle: poll the trait method until Ready."""
     from ..engine import Outcome
     I = session.I
+    session.env.begin_op(op)
     meth = {"hwrite": ("AsyncWrite", "poll_write"), "hflush": ("AsyncWrite", "poll_flush"),
             "hclose": ("AsyncWrite", "poll_close" if session.flavour == "async-std" else "poll_shutdown"),
             "hread": ("AsyncRead", "poll_read"), "hwrite_all": None}[op]
